@@ -7,7 +7,9 @@
    holding one reference.  Every thread runs a few operations on it (write / read sections,
    try-locks, timed cv waits and timed conditional waits on the object's own mutex -- so that
    queued lockers, cv waiters, conditional waiters and timeouts are present), then drops its
-   reference UNDER THE WRITE LOCK:  lock; last = (--refs == 0); unlock; if (last) free (obj).
+   reference UNDER THE WRITE LOCK:  lock; done[me] = 1; last = (everybody done); unlock; if (last) free (obj).
+   Some threads instead leave through a final READ section in which they only mark themselves done: a
+   writer queued behind such a section may free the object while the reader is still inside nsync_mu_runlock.
    (Dropping a reference in a read section would be a client bug: a reader cannot know that it
    is the last user.)  After dropping its reference a thread never touches the object.
 
@@ -16,14 +18,15 @@
    object is a heap-use-after-free.  Plus the deadlock rule.  */
 #include "sc.h"
 
-struct obj { nsync_mu mu; nsync_cv cv; int refs; int v; long pad[4]; };
+struct obj { nsync_mu mu; nsync_cv cv; int refs; int v; int done[RT_MAXT]; long pad[4]; };
 #define MAXOPS 6
 static struct {
 	struct obj *o;
 	int nthreads, nops[RT_MAXT], ops[RT_MAXT][MAXOPS], dl[RT_MAXT][MAXOPS];
 	int freed_by;
+	int final_reader[RT_MAXT];   /* this thread ends with a READ section in which it only marks itself done */
 } S;
-enum { CV_FREES = 0, CV_UNREF_SLEPT, CV_OPS, CV_WAIT_SLEPT, CV_LAST_WITH_QUEUE };
+enum { CV_FREES = 0, CV_UNREF_SLEPT, CV_OPS, CV_WAIT_SLEPT, CV_LAST_WITH_QUEUE, CV_FREED_BY_MAIN };
 enum { O_W, O_R, O_TRY, O_RTRY, O_CVWAIT, O_MUWAIT, O_SIGNAL, O_CVWAIT_R, O_MUWAIT_R };
 static int cond_v (const void *p) { return (*(const int *) p > 1000000); }   /* never true */
 
@@ -45,10 +48,23 @@ static void body (int tid) {
 		}
 		rt_point ("between-ops");
 	}
+	if (S.final_reader[tid]) {
+		/* leave through a read section: mark this thread done (its own slot) and never touch the object again.
+		   A writer queued behind this section may find everybody done and free the object while this thread
+		   is still inside nsync_mu_runlock. */
+		RT_OP ("nsync_mu_rlock", nsync_mu_rlock (&o->mu));
+		o->done[tid] = 1;
+		rt_point ("final-read-section");
+		RT_OP ("nsync_mu_runlock", nsync_mu_runlock (&o->mu));
+		rt_ev ((uint32_t) (0x40 | tid));
+		return;
+	}
 	/* drop the reference under the write lock */
 	RT_OP ("nsync_mu_lock", nsync_mu_lock (&o->mu));
 	if (rt_op_sleeps ()) { rt_cover (CV_UNREF_SLEPT); rt_mark_nontrivial (); }
-	last = (--o->refs == 0);
+	o->done[tid] = 1;
+	last = 1;
+	for (i = 0; i < S.nthreads; i++) if (!o->done[i]) last = 0;
 	if (last && (sc_word (&o->mu.word) & 4u)) rt_cover (CV_LAST_WITH_QUEUE);
 	RT_OP ("nsync_mu_unlock", nsync_mu_unlock (&o->mu));
 	if (last) { rt_cover (CV_FREES); S.freed_by = tid; free (o); }
@@ -63,18 +79,20 @@ static int setup (uint64_t seed) {
 	nsync_mu_init (&S.o->mu); nsync_cv_init (&S.o->cv);
 	S.nthreads = 2 + (int) rt_rand_n (3);
 	S.o->refs = S.nthreads; S.freed_by = -1;
+	for (t = 0; t < RT_MAXT; t++) S.final_reader[t] = 0;
+	for (t = 1; t < S.nthreads; t++) S.final_reader[t] = (rt_rand_n (3) == 0);     /* thread 0 always ends as a writer */
 	for (t = 0; t < S.nthreads; t++) {
 		S.nops[t] = (int) rt_rand_n (MAXOPS + 1);
 		for (i = 0; i < S.nops[t]; i++) { S.ops[t][i] = (int) rt_rand_n (9); S.dl[t][i] = rt_mode_b () ? (int) rt_rand_n (3000) : (int) rt_rand_n (100000); rt_ev ((uint32_t) S.ops[t][i]); }
 	}
 	return (S.nthreads);
 }
-static void check (void) { if (S.freed_by < 0) rt_fatal ("nobody freed the object"); }
+static void check (void) { if (S.freed_by < 0) { rt_cover (CV_FREED_BY_MAIN); free (S.o); } }
 static void describe (FILE *f) {
 	static const char *const on[] = { "W", "R", "try", "rtry", "cvwait", "muwait", "signal", "cvwait(r)", "muwait(r)" }; int t, i;
 	fprintf (f, "{\"threads\":[");
 	for (t = 0; t < S.nthreads; t++) { fprintf (f, "%s\"", t ? "," : ""); for (i = 0; i < S.nops[t]; i++) fprintf (f, "%s ", on[S.ops[t][i]]); fprintf (f, "unref\""); }
 	fprintf (f, "],\"freed_by\":%d}", S.freed_by);
 }
-static void pinit (void) { rt_cover_name (CV_FREES, "objects_freed_by_last_user"); rt_cover_name (CV_UNREF_SLEPT, "final_acquisitions_that_slept"); rt_cover_name (CV_OPS, "operations"); rt_cover_name (CV_WAIT_SLEPT, "waits_that_slept"); rt_cover_name (CV_LAST_WITH_QUEUE, "last_unref_with_waiting_bit_set"); }
+static void pinit (void) { rt_cover_name (CV_FREES, "objects_freed_by_last_user"); rt_cover_name (CV_UNREF_SLEPT, "final_acquisitions_that_slept"); rt_cover_name (CV_OPS, "operations"); rt_cover_name (CV_WAIT_SLEPT, "waits_that_slept"); rt_cover_name (CV_LAST_WITH_QUEUE, "last_unref_with_waiting_bit_set"); rt_cover_name (CV_FREED_BY_MAIN, "rounds_where_the_last_to_finish_was_a_reader"); }
 rt_scenario rt_scen = { "refcount", "C13", 4, &pinit, &setup, &body, &check, NULL, &describe, NULL, NULL, NULL };
